@@ -440,6 +440,9 @@ def build_stage2(st, fk, variant=0):
     from . import flowlib
     if st["t"] == "runifdup":
         return lena.flow.RunIf(st["k"], DupInc())
+    if st["t"] == "runifseq":
+        # flow-dependent inner sequence (fresh elements; Slice / Reverse keep nothing between runs)
+        return lena.flow.RunIf(flowlib._pred(st["p"]), *[flowlib.build_stage(x, fk != "bare") for x in st["inner"]])
     if st["t"] == "map" and st.get("attr") == "all":
         import lena.variables
         return lena.variables.Variable("x", lambda d: d + 10, **dict((a, "2023A") for a in ALL_ATTRS))
@@ -496,7 +499,7 @@ def siblings(variant=0):
     return a, b
 
 
-STATELESS = ("map", "filter", "slice", "runif", "cfilter", "crunif", "runifdup")
+STATELESS = ("map", "filter", "slice", "runif", "cfilter", "crunif", "runifdup", "runifseq")
 
 
 class SecondComputeDiffers(Exception):
@@ -580,6 +583,10 @@ def chain_key(ch):
             return "runif(%s,%s)" % (st["p"], st["f"])
         if t == "runifdup":
             return "runif-ctx(%s,dup)" % st["k"]
+        if t == "runifseq":
+            return "runif(%s,[%s])" % (st["p"], "+".join(one(x) for x in st["inner"]))
+        if t in ("lagk", "lastk"):
+            return "%s%d" % (t, st["k"])
         if t == "cfilter":
             return "filter-ctx-%s-%s" % (st["k"], st["form"])
         if t == "crunif":
@@ -641,6 +648,12 @@ def make_synthetic(caps):
         ns["__iter__"] = _m_iter
     if caps["cbf"]:
         ns["_can_break_flow"] = True
+    if not caps.get("truth", True):
+        # a falsy element: container-like (__len__ 0) if it is iterable, else __bool__
+        if caps["iter"]:
+            ns["__len__"] = lambda self: 0
+        else:
+            ns["__bool__"] = lambda self: False
     cls = type("Synthetic", (object,), ns)
     obj = cls()
     obj.log = []
@@ -676,7 +689,7 @@ def spec_tokens(ts):
 def caps_sig(caps):
     parts = [("%s=%s" % (k, caps[k]) if caps[k] == "attr" else k) for k in METHODS if caps[k] != "no"]
     parts += [k for k in ("call", "iter", "cbf") if caps[k]]
-    return "+".join(parts) or "nothing"
+    return ("+".join(parts) or "nothing") + ("" if caps.get("truth", True) else ":falsy")
 
 
 def adapter_kwargs(adapter, arg, function=None):
@@ -726,4 +739,8 @@ def real_caps(obj):
     caps["call"] = callable(obj)
     caps["iter"] = hasattr(obj, "__iter__")
     caps["cbf"] = hasattr(obj, "_can_break_flow")
+    try:
+        caps["truth"] = bool(obj)
+    except Exception:   # noqa
+        caps["truth"] = True
     return caps
